@@ -306,12 +306,14 @@ type fakeQueue struct {
 // fakeCtrl is one controller incarnation created through the NewControllerFn option.
 type fakeCtrl struct {
 	kcontroller.Controller
-	name      string
-	inc       int // incarnation number for this name
-	failAsync bool
-	inflight  bool
-	w         *world
-	q         *fakeQueue
+	name        string
+	inc         int // incarnation number for this name
+	failAsync   bool
+	inflight    bool
+	errOnCancel bool
+	returned    chan struct{} // closed when Start has returned after a cancellation
+	w           *world
+	q           *fakeQueue
 
 	mu         sync.Mutex
 	startCtx   context.Context
@@ -338,6 +340,10 @@ func (f *fakeCtrl) Start(ctx context.Context) error {
 	<-ctx.Done()
 	if f.inflight {
 		_ = f.w.eng.StartWatches(f.name, f.w.watchFor(f.name, xrWatch(f.name), f.w.clock.Add(1)))
+	}
+	defer close(f.returned)
+	if f.errOnCancel {
+		return errors.New("failed to wait for caches to sync: context canceled (scripted)")
 	}
 	return nil
 }
@@ -437,6 +443,9 @@ const (
 	// done, and one reconcile is in flight when the context is cancelled: it goes on to ask the
 	// engine for a watch (as the XR reconciler does in every reconcile) before it returns
 	ncInflight
+	// ncErrOnCancel: Start returns an ERROR when its context is cancelled, as controller-runtime's
+	// does when the controller is stopped while it still waits for its caches to sync
+	ncErrOnCancel
 )
 
 // world is one real engine with its fakes.
@@ -499,7 +508,7 @@ func (w *world) ncFn(mode int) engine.NewControllerFn {
 			w.syncFails++
 			return nil, errors.New("injected: cannot create controller")
 		}
-		fc := &fakeCtrl{name: name, inc: len(w.incs[name]), failAsync: mode == ncAsyncFail, inflight: mode == ncInflight, w: w, started: make(chan struct{})}
+		fc := &fakeCtrl{name: name, inc: len(w.incs[name]), failAsync: mode == ncAsyncFail, inflight: mode == ncInflight, errOnCancel: mode == ncErrOnCancel, returned: make(chan struct{}), w: w, started: make(chan struct{})}
 		fc.q = &fakeQueue{ctrl: fc}
 		w.incs[name] = append(w.incs[name], fc)
 		return fc, nil
